@@ -389,6 +389,8 @@ def run(ctx):
             for _, n in model.walk(s):
                 if n["k"] == "sec":
                     n["type"] = rng.choice([n["type"], "recording", "cell", "customtype", "subject"])
+                elif n["k"] == "prop" and n["dtype"] in ("string", "text") and n["values"] and rng.random() < 0.15:
+                    n["values"].insert(rng.randrange(len(n["values"]) + 1), "")     # the empty text is a value like any other
             specs.append(s)
         case = {"specs": [enc(s) for s in specs], "i": i}
         if not ctx.quick() or i % 3 == 0:
